@@ -34,3 +34,12 @@ Proof.
   destruct defaults as [Hp _]. rewrite (Hp v r Hd Ha). split; [reflexivity|].
   intros cn. unfold eligible, new_entry. cbn. destruct cn; reflexivity.
 Qed.
+
+(* the default bridge on the wire: a client poll without a fingerprint field decodes to exactly what a poll naming
+   the default fingerprint decodes to; Model/Broker.v's [fp_of None = default_fp] is this defaulting, with the tag
+   [default_fp] standing for the string DEFAULT_FINGERPRINT *)
+Theorem client_absent_fingerprint_names_default : forall v o n f,
+  decode_client_poll_body v = Ok (o, n, f) -> absent "fingerprint" v -> f = DEFAULT_FINGERPRINT.
+Proof.
+  intros v o n f Hd Ha. destruct defaults as [_ [_ [_ [_ [_ [_ [_ Hf]]]]]]]. exact (Hf v o n f Hd Ha).
+Qed.
